@@ -746,6 +746,135 @@ def sc_buffers_strings(r):
 """, n=n)]
 
 
+
+def sc_read_timeout(r):
+    n = r.randint(1, 500)
+    return [T(r"""
+(def [rs ws] (os/pipe))
+(def done (ev/chan 4))
+(defn launch []
+  (ev/go (fn []
+    (def res (try (ev/read rs $n (buffer/new $c) 0.004) ([e] [:err e])))
+    (emit "read-timeout" res)
+    (ev/give done 1)))
+  nil)
+(launch)
+(ev/sleep 0)
+(churn $k)
+(ev/take done)
+(churn 1)
+(ev/write ws (sim/fill 5 0 $n))
+(def got (read-all rs $n))
+(emit "read-after-timeout" (length got) (sim/hash got))
+(ev/close ws)
+(ev/close rs)
+""", n=n, c=r.randint(0, 64), k=r.randint(1, 8))]
+
+
+def sc_cancel_pending_read(r):
+    n = r.randint(1, 500)
+    return [T(r"""
+(def [rs ws] (os/pipe))
+(def done (ev/chan 4))
+(defn launch []
+  (ev/go (fn []
+    (def res (try (ev/read rs $n) ([e] [:cancelled e])))
+    (emit "read-cancelled" res)
+    (ev/give done 1))))
+(defn do-cancel [f] (ev/cancel f (mkval $a)) nil)
+(def f (launch))
+(ev/sleep 0)
+(churn $k)
+(do-cancel f)
+(churn 1)
+(ev/take done)
+(ev/write ws (sim/fill 6 0 $n))
+(churn 1)
+(def got (read-all rs $n))
+(emit "read-after-cancel" (length got) (sim/hash got))
+(ev/close ws)
+(ev/close rs)
+""", n=n, a=r.randint(0, 99), k=r.randint(1, 8))]
+
+
+def sc_proc_wait_child(r):
+    return [T(r"""
+(def done (ev/chan 4))
+(defn launch []
+  (ev/go (fn []
+    (def p (os/spawn ["sim-child" "s$ms" "w$n" "x$code"] :p {:out :pipe}))
+    (def out (p :out))
+    (def got (read-eof out))
+    (def code (os/proc-wait p))
+    (ev/close out)
+    (emit "proc" (length got) (sim/hash got) code)
+    (ev/give done 1)))
+  nil)
+(launch)
+(ev/sleep 0)
+(churn $k)
+(ev/sleep 0.001)
+(churn $k)
+(ev/take done)
+""", ms=r.choice([0, 1, 5]), n=r.choice([10, 100, 5000]), code=r.choice([0, 0, 7]), k=r.randint(1, 6))]
+
+
+def sc_deep_recursion(r):
+    # fresh fibers start with a small stack: recursion grows it through every path (frame
+    # push, argument pushes of 1/2/3 values, push-array), with frames of seeded size
+    nloc = r.randint(0, 12)
+    locs = " ".join("(def p%d (+ a %d))" % (i, i) for i in range(nloc))
+    use = " ".join("p%d" % i for i in range(0, nloc, 3))
+    return [T(r"""
+(defn rec1 [a] $locs (if (= a 0) [$use] (array/push (array/slice (rec1 (- a 1))) a $use)))
+(defn rec2 [a b] $locs (if (= a 0) [b $use] (let [x (rec2 (- a 1) (mkstr a))] [a (length x) $use])))
+(defn rec3 [a b c] $locs (if (= a 0) [b c $use] (let [x (rec3 (- a 1) c (mkstr a))] [a (first x) $use])))
+(defn recn [a & more] $locs (if (= a 0) more (recn (- a 1) ;more a)))
+(defn in-fiber [f & args] (resume (fiber/new (fn [] (f ;args)) :e)))
+(emit "rec1" (length (in-fiber rec1 $d1)))
+(emit "rec2" (in-fiber rec2 $d2 "b"))
+(emit "rec3" (in-fiber rec3 $d3 "b" "c"))
+(emit "recn" (length (in-fiber recn $d4 :x)))
+""", locs=locs, use=use, d1=r.randint(1, 16), d2=r.randint(1, 16), d3=r.randint(1, 16), d4=r.randint(1, 30))]
+
+
+def sc_stack_overflow(r):
+    return [T(r"""
+(defn mk []
+  (def caps @[])
+  (defn inf [n] (def mine (mkstr n)) (if (< (length caps) 3) (array/push caps (fn [] [n mine]))) (+ 1 (inf (+ n 1))))
+  (def f (fiber/new (fn [] (inf 0)) :e))
+  (fiber/setmaxstack f $max)
+  (def res (resume f))
+  [caps res (fiber/status f)])
+(sim/gc :off)
+(def [caps res st] (mk))
+(sim/gc :on)
+(churn $k)
+(emit "overflow" res st (map (fn [c] (c)) caps))
+""", max=r.choice([200, 500, 1000]), k=r.randint(1, 6))]
+
+
+def sc_chan_close_pending(r):
+    n = r.randint(1, 3)
+    return [T(r"""
+(def ch (ev/chan $cap))
+(def done (ev/chan 16))
+(defn launch-taker [i]
+  (ev/go (fn [] (def mine (mkval i)) (def got (ev/take ch)) (emit "closed-take" (mine 0) got) (ev/give done i)))
+  nil)
+(defn launch-giver [i]
+  (ev/go (fn [] (def ok (ev/give ch (mkval i))) (emit "closed-give" i (truthy? ok)) (ev/give done (+ 100 i))))
+  nil)
+(for i 0 $n ($which i))
+(ev/sleep 0)
+(churn $k)
+(ev/chan-close ch)
+(churn 1)
+(emit "closed-done" (sort (take-n done $n)))
+""", cap=r.choice([0, 0, 1]), n=n, which=r.choice(["launch-taker", "launch-giver"]), k=r.randint(1, 6))]
+
+
 def sc_all_tasks(r):
     # NOTE: only touches the returned fibers; emits nothing about their number (whether a
     # fiber that nobody can wake any more is still listed is left open)
@@ -826,6 +955,12 @@ SCENARIOS = {
     "buffers_strings": sc_buffers_strings,
     "locks_abstract": sc_locks_abstract,
     "gather": sc_gather,
+    "read_timeout": sc_read_timeout,
+    "cancel_pending_read": sc_cancel_pending_read,
+    "proc_wait_child": sc_proc_wait_child,
+    "deep_recursion": sc_deep_recursion,
+    "stack_overflow": sc_stack_overflow,
+    "chan_close_pending": sc_chan_close_pending,
 }
 
 # scenarios that reproduce a defect of the unchanged tree; generated only when asked for
